@@ -21,7 +21,9 @@ for r in rows:
 out += ["", "Checks that missed a change when it arrived and were strengthened because of it: C29 (no-reply calls), C30",
         "(handlers removing their own interface), C12 (deeply nested header field values), C14 (unknown-type messages",
         "with fds; fd-merging transport) for the C13 change, C25 (concurrent operation pairs, yielding getter), C33",
-        "(persistent caching proxies on a shared object), C36 (bus-side AlreadyOwner, guided histories).  After the",
-        "strengthening every kept change is caught by the quick tier at VERIF_SEED=0.", ""]
+        "(persistent caching proxies on a shared object), C36 (bus-side AlreadyOwner, guided histories), and in the second",
+        "batch (names ending in `b`) C26 (handlers that depend on a later call), C38 (queue exactly full at the failure,",
+        "late consumer), C39 (several pending graceful shutdowns).  After the strengthening every kept change is caught",
+        "by the quick tier at VERIF_SEED=0 (SWEEP.txt).", ""]
 open(os.path.join(root, "README.md"), "w").write("\n".join(out))
 print(len(rows), "seeded changes")
